@@ -1318,3 +1318,58 @@ def rule_byte_count_product_bounded(ctx, files=("hdf/src/vrw.c",)):
                     ctx.violated("PRODBOUND", key, f.where(line), "`%s` multiplies the caller's `%s`, which is never compared with an upper bound: a large count wraps the 32-bit byte count and the call transfers less than it reports" % (render(x)[:60], p))
     ctx.floor("PRODBOUND", 2, n, "(byte counts computed from a caller-supplied record count)")
     return n
+
+
+def rule_min_form_consistent(ctx):
+    """MINFORM (C04): `if (A > B) v = B; else v = A;` takes the smaller of two quantities — a piece size that is the rest of the request
+    or the rest of the chunk/block, whichever ends first.  It does so only if the quantity tested is the quantity assigned in the
+    other arm.  With a different first operand in the test (the nominal chunk length where the length of the *last*, partial
+    chunk is assigned) the piece runs past the valid part of a partial chunk for some requests, and elements of the next row are
+    read from or written into its unused cells.  Instances: every if/else in the library whose two arms assign the same target,
+    one of them the right operand of the comparison."""
+    from .codec import ast_walk
+    prog = ctx.prog
+    n = 0
+    occ = {}
+    for f in prog.lib_funcs():
+        ast = f.raw.get("ast")
+        if not ast:
+            continue
+        found = []
+
+        def one_asg(arm):
+            kids = arm[1] if arm[0] == "block" else [arm]
+            if len(kids) != 1 or kids[0][0] != "s":
+                return None
+            e = strip(kids[0][1])
+            return e if kind(e) == "asg" and e[1] == "=" else None
+
+        def vis(nd, st):
+            if nd[0] == "if" and nd[3] is not None:
+                c = strip(nd[1])
+                if kind(c) == "bin" and c[1] in (">", ">=", "<", "<="):
+                    a1, a2 = one_asg(nd[2]), one_asg(nd[3])
+                    if a1 is not None and a2 is not None and render(strip(a1[2])) == render(strip(a2[2])) and not is_int(c[2]) and not is_int(c[3]):
+                        L, R = render(strip(c[2])), render(strip(c[3]))
+                        t, e = render(strip(a1[3])), render(strip(a2[3]))
+                        # then-arm takes one operand of the comparison; the else-arm must take the other
+                        if t == R and kind(strip(c[2])) not in ("var", "int"):
+                            found.append((nd, L, e))
+                        elif t == L and kind(strip(c[3])) not in ("var", "int"):
+                            found.append((nd, R, e))
+            return True
+
+        ast_walk(ast, vis)
+        for nd, tested, assigned in found:
+            n += 1
+            key = "MINFORM:%s" % f.name
+            occ[key] = occ.get(key, 0) + 1
+            if occ[key] > 1:
+                key += "#%d" % occ[key]
+            line = nd[-3] if isinstance(nd[-3], int) else f.line
+            if tested == assigned:
+                ctx.holds("MINFORM", key, f.where(line), "the quantity tested (`%s`) is the one assigned in the other arm" % tested[:60], nontrivial=True)
+            else:
+                ctx.violated("MINFORM", key, f.where(line), "the test uses `%s` but the other arm assigns `%s`: this is not the smaller of the two quantities whenever they differ" % (tested[:70], assigned[:70]))
+    ctx.floor("MINFORM", 2, n, "(if/else pairs that take the smaller of two quantities)")
+    return n
